@@ -598,12 +598,19 @@ struct LogUser : public BuildLogUser {
   }
 };
 
-static string BlogDump(const BuildLog& bl) {
+static string BlogDump(const BuildLog& bl, State* state = nullptr) {
   vector<string> rows;
   for (auto& e : bl.entries()) {
     char h[32];
     snprintf(h, sizeof h, "%llx", (unsigned long long)e.second->command_hash);
-    rows.push_back("{\"o\":" + JEsc(e.second->output) + ",\"m\":" + to_string(e.second->mtime) + ",\"h\":\"" + h + "\"}");
+    // cur: the recorded hash is the hash of the statement's current command (and response file content)
+    bool cur = false;
+    if (state) {
+      Node* n = state->LookupNode(e.second->output);
+      if (n && n->in_edge())
+        cur = BuildLog::LogEntry::HashCommand(n->in_edge()->EvaluateCommand(true)) == e.second->command_hash;
+    }
+    rows.push_back("{\"o\":" + JEsc(e.second->output) + ",\"m\":" + to_string(e.second->mtime) + ",\"h\":\"" + h + "\",\"cur\":" + (cur ? "true" : "false") + "}");
   }
   sort(rows.begin(), rows.end());
   return "[" + Join(rows, ",") + "]";
@@ -676,7 +683,7 @@ static void ChildInvocation(const JV& step) {
   if (deps_log.Load(deps_path, &state, &err) == LOAD_ERROR) finish(1, "loading deps log: " + err);
   if (!err.empty()) { warn += err + ";"; err.clear(); }
   if (!dry && !deps_log.OpenForWrite(deps_path, &err)) finish(1, "opening deps log: " + err);
-  Emit("{\"e\":\"Loaded\",\"blog\":" + BlogDump(build_log) + ",\"dlog\":" + DlogDump(deps_log) + ",\"warn\":" + JEsc(warn) + "}");
+  Emit("{\"e\":\"Loaded\",\"blog\":" + BlogDump(build_log, &state) + ",\"dlog\":" + DlogDump(deps_log) + ",\"warn\":" + JEsc(warn) + "}");
 
   BuildConfig config;
   config.verbosity = BuildConfig::QUIET;
